@@ -26,6 +26,7 @@ DECIDING = ["shapes_finite", "Q_unitary", "similarity", "converged_implies_trian
 MUST_REACH = ["flag:converged", "flag:not_converged", "class:hermitian:converged"]
 
 C = 1e3
+CS = 30.0
 EPS = refq.EPS
 
 VARIANTS = (
@@ -39,7 +40,7 @@ VARIANTS = (
 )
 
 CLASSES = ["generic", "hermitian", "hermitian_repeat", "upper_tri", "normal", "rank1", "rank2", "int", "diag", "scaled_small", "scaled_big",
-           "hermitian_psd"]
+           "hermitian_psd", "scaled_huge", "int_big", "hermitian_big"]
 
 
 def vname(fn, kw):
@@ -50,7 +51,7 @@ def cases(tier, seed):
     out = []
     maxn = 6 if tier == "quick" else 10
     budgets = [0, 1, 2, 3, 5, 10, 50, 300] if tier == "quick" else list(range(0, 11)) + [20, 50, 100, 300, 1000]
-    nmat = 6 if tier == "quick" else 14
+    nmat = 4 if tier == "quick" else 12
     idx = 0
     for cls in CLASSES:
         for k in range(nmat):
@@ -93,6 +94,14 @@ def make(rng, cls, n):
         A = refq.randq(rng, n, n) * 1e-3
     elif cls == "scaled_big":
         A = refq.randq(rng, n, n) * 1e3
+    elif cls == "scaled_huge":
+        A = refq.randq(rng, n, n) * 1e5
+    elif cls == "int_big":
+        A = refq.qa(np.round(rng.standard_normal((n, n, 4)) * 3e3))
+    elif cls == "hermitian_big":
+        e = (rng.standard_normal(n) * 2.0 + np.arange(n) * 0.3) * 1e4
+        A, _ = refq.hermitian_with_eigs(rng, e)
+        herm, eigs = True, np.sort(e)
     else:
         raise ValueError(cls)
     return A, herm, eigs
@@ -147,7 +156,9 @@ def run_case(spec, ctx, R):
             te = tol_eff(fn, kw, tol, n)
             det = {"n": n, "budget": budget, "tol": tol, "iterations": iters, "converged": bool(dg["converged"]), "normA": nrm}
             ctx.check("Q_unitary", refq.orth_err(Q), C * n * EPS * (sweeps + n), site=site, tags=[cls], detail=det)
-            sb = C * n * (te * max(1.0, nrm) + EPS * (sweeps + n) * nrm) + 1e-300
+            # calibrated: worst observed ratio on the unchanged tree with constant 1e3 was 6e-4 (all variants, 5 seeds, both tiers),
+            # so 30 leaves a factor ~50 of head-room while a deflation threshold that is wrong by the scale of A is far outside
+            sb = CS * n * (te * max(1.0, nrm) + EPS * (sweeps + n) * nrm) + 1e-300
             ctx.check("similarity", refq.fro(refq.matmul(refq.matmul(Q, T), refq.herm(Q)) - A), sb, site=site, tags=[cls], detail=det)
             if bool(dg["converged"]):
                 ctx.hit("flag:converged")
